@@ -15,12 +15,11 @@ pub mod lib_ {
             s@.len() > 0 ==> r is Some && *r.unwrap().0 == s@[s@.len() - 1] && r.unwrap().1@ == s@.subrange(0, s@.len() - 1),
     ;
 
-    /// `trim_cr` uses a reference-literal pattern (`Some((&b'\r', rest))`) that Verus rejects, so its contract is
-    /// ASSUMED here and PROVED on the real function by the Kani harness kani/trim_cr.rs (DESIGN 2.1, 3.6).
-    #[verifier::external_body]
-    pub fn trim_cr(line: &[u8]) -> (r: &[u8])
-        ensures r@ == trim(line@)
-    { unimplemented!() }
+//@fn lib::trim_cr ret=r tags=C12,C13,C06 vis=pub
+//@spec
+        ensures
+            [C12,C13|trim_cr.removes_one_trailing_cr] r@ == trim(line@),
+//@end
 
 //@fn lib::fill_buf ret=res tags=C14,C03,C06 vis=pub
 //@local initial_size ord=0 kind=let
